@@ -394,8 +394,12 @@ S == [chain |-> chain, startH |-> startH, req |-> req, toReq |-> toReq, lastSave
 LinkedP(s) == \A i \in 1..Len(s.chain) : ParX(s.chain[i]) = (IF i = 1 THEN 0 ELSE s.chain[i-1])        \* C02
 NoDupP(s) == \A i, j \in 1..Len(s.chain) : s.chain[i] = s.chain[j] => i = j                            \* C02
 WindowP(s) == Len(s.req) <= W                                                                          \* C13
-GrowsAtTipP(s, t) == Len(t.chain) > Len(s.chain) =>                                                    \* C02
-                        (Len(t.chain) = Len(s.chain) + 1 /\ SubSeq(t.chain, 1, Len(s.chain)) = s.chain)
+\* C02: one handler call changes the chain only above a common prefix (a revert to the fork point) and only by putting blocks that
+\* were not in the chain on top of it (several headers in one message before the start block; revert and regrowth in one message)
+LCP(a, b) == LET n == IF Len(a) < Len(b) THEN Len(a) ELSE Len(b)
+                 ks == {k \in 0..n : SubSeq(a, 1, k) = SubSeq(b, 1, k)}
+             IN CHOOSE k \in ks : \A j \in ks : j <= k
+GrowsAtTipP(s, t) == \A i \in (LCP(s.chain, t.chain) + 1)..Len(t.chain) : t.chain[i] \notin Range(s.chain)
 NotifyP(s, t) == (~s.notified /\ t.notified) =>                                                        \* C01
                         (t.infl = None /\ t.req = <<>> /\ t.toReq = <<>>)
 ConvergedP(s) == s.chain = PathTo(s.ptip)                                                              \* C01
